@@ -1,5 +1,6 @@
 import SV.Wire
 import SV.Spec.C19
+import SV.Spec.C19Pipeline
 open SV SV.Wire SV.Model.C19 SV.Spec.C19
 
 def actionStr : Action → String
@@ -84,6 +85,23 @@ def mkMt (rows : List (List Bool)) : Nat → Nat → Bool := fun f o => ((rows.g
 def encApplied (xs : List (Nat × Action × Nat)) : Json :=
   .arr (xs.map fun (d, a, h) => .arr [jnat d, .str (actionStr a), jnat h])
 
+def encCtx : Option Nat → Json
+  | none => .null
+  | some o => jnat o
+
+def encStages (xs : List (Nat × Action × Nat × Option Nat)) : Json :=
+  .arr (xs.map fun (d, a, h, c) => .arr [jnat d, .str (actionStr a), jnat h, encCtx c])
+
+/-- what drawing through the harness hooks does: the `before_generate` calls of build time, the calls of draw time
+    (kind, hook, operation of the context, value received) and the value drawn -/
+def encDraw (xs : List (Nat × Action × Nat × Option Nat)) : Json :=
+  let r := denote probe (untag xs) (sPure []) []
+  jobj [
+    ("build", .arr ((untag xs).filterMap fun (a, h, c) =>
+        if a = .beforeGenerate then some (.arr [.str (actionStr a), jnat h, encCtx c]) else none)),
+    ("calls", .arr (r.1.map fun c => .arr [.str (actionStr c.act), jnat c.hook, encCtx c.ctx, .arr (c.arg.map jnat)])),
+    ("value", match r.2 with | none => .null | some (v, _) => .arr (v.map jnat))]
+
 def handle : Handler := fun op a => do
   match op with
   | "hist" =>
@@ -112,9 +130,17 @@ def handle : Handler := fun op a => do
       ("hooks", .arr ((List.range 3).map fun d => .arr ((s.hooks d).map fun (n, h) => .arr [.str (nameStr n), jnat h]))),
       ("applied", .arr (targets.map fun t => .arr (os.map fun o =>
           if t = .case then encApplied (applyAllCase v26 mt s withTest o) else encApplied (applyAll mt s withTest t o)))),
+      -- the closures of the application loops resolved, and a draw through the harness hooks
+      ("stages", .arr (targets.map fun t => .arr (os.map fun o => encStages (stagesOf .byValue v26 mt s withTest t o)))),
+      ("draw", .arr (targets.map fun t => .arr (os.map fun o => encDraw (stagesOf .byValue v26 mt s withTest t o)))),
+      ("spec_stages", .arr (targets.map fun t => .arr (os.map fun o =>
+          encStages (specStages mt (afilterOf as) as.hooks withTest t o)))),
       ("dispatch", .arr (dnames.map fun n => .arr ((List.range 3).map fun d =>
           jobj [("none", .arr ((dispatch mt s d n none).map jnat)),
                 ("ops", .arr (os.map fun o => .arr ((dispatch mt s d n (some o)).map jnat)))]))),
+      ("dispatch_all", .arr (dnames.map fun n =>
+          jobj [("none", .arr ((dispatchAll mt s withTest n none).map fun p => jnat p.2)),
+                ("ops", .arr (os.map fun o => .arr ((dispatchAll mt s withTest n (some o)).map fun p => jnat p.2)))])),
       -- reference machine (specification)
       ("spec_outs", .arr ((aouts (ainit disp.length dispF) ops).map encOut)),
       ("spec_hooks", .arr ((List.range 3).map fun d => .arr ((as.hooks d).map fun (n, h) => .arr [.str (nameStr n), jnat h]))),
